@@ -20,7 +20,19 @@ open CelmaVerif CelmaVerif.FixedString
     The only other outcome is an exception, and only for `at()` / dereferencing `end()`, where
     `std::string`'s counterpart throws too.  `ArgsOK` lists the caller-side contract shared with
     `std::string`: C strings are terminated, `[p, p + n)` is readable for pointer+count overloads,
-    iterator pairs are ranges, `operator[]` stays inside the buffer. -/
+    iterator pairs are ranges, `operator[]` (of the string and of an iterator) stays inside the buffer.
+
+    Scope of "every operation" (audit item 10).  The operation language contains every public member of
+    `FixedString` and, since the audit, the iterator arithmetic of both iterator headers (`Op.itWalk*`: an iterator
+    built at any position or `end()`/`rend()`, moved by any sequence of `++ -- += -=` with any operand, then
+    `operator *` or `operator[]`; `Op.itRel`: the six relational operators).  NOT representable, hence not covered:
+    (1) a source argument that aliases the target (`s.insert( 1, s)`, `s.assign( s.c_str() + 1)`, `s.sprintf( "%s",
+    s.c_str())`): a source is a value (`List Byte`, `Sel` = t | u).  Replayed on the real code instead (design note,
+    426 sanitizer runs): guards intact and well-formed every time, but `memcpy` on overlapping ranges in 98 of them
+    and contents different from `std::string`; (2) iterators that outlive a modification of the string (every
+    operation builds its iterators afresh); (3) writes through the `char&` / `char*` handed out by `at`, `operator[]`,
+    `front`, `back`, `data`, `*it`: they are the caller's stores, not operations of the class (a store of a non-NUL
+    byte at `[length()]`, which `at( length())` permits, destroys the terminator). -/
 theorem C10_safe_wf (c cu : Cfg) (hc : CfgOK c) (hcu : CfgOK cu) (w : World) (hw : WFW c cu w) (op : Op)
     (ha : ArgsOK c w op) :
     (∃ w' o, step c cu w op = .ok (w', o) ∧ WFW c cu w') ∨ (∃ e, step c cu w op = .throw e ∧ MayThrow op) :=
@@ -33,6 +45,19 @@ theorem C10_safe_wf (c cu : Cfg) (hc : CfgOK c) (hcu : CfgOK cu) (w : World) (hw
 theorem C10_history (c cu : Cfg) (hc : CfgOK c) (hcu : CfgOK cu) (ops : List Op) :
     ∀ w, WFW c cu w → HistOK c cu w ops → ∃ w', run c cu w ops = .ok w' ∧ WFW c cu w' :=
   run_wf hc hcu ops
+
+/-- Iterator arithmetic (fixed_string_iterator.hpp, fixed_string_reverse_iterator.hpp).  An iterator built at any
+    position (or `end()` / `rend()`) and moved by any sequence of `++`, `--`, `+= n`, `-= n` with any operands — also
+    `SIZE_MAX`, also on the empty string — is again `end()` or an index inside the string, so `operator *` either
+    reads a character of the string or throws `range_error`; it never reads outside the buffer.  True of the repaired
+    code only (fix 4c194d2): the pinned `--` on `end()` (and `++` on `rend()`) produced the index `SIZE_MAX - 1`,
+    which `operator *` then used (example below). -/
+theorem C10_iterator_walk (c : Cfg) (hc : CfgOK c) (s : FStr) (hs : WF c s) (rev : Bool) (p : ItArg)
+    (ms : List ItMove) :
+    (itWalk c s rev (itOf c s p) ms = itEnd c ∨ itWalk c s rev (itOf c s p) ms < s.len) ∧
+    ((∃ b, itDeref c s (itWalk c s rev (itOf c s p) ms) = .ok b) ∨
+     (∃ e, itDeref c s (itWalk c s rev (itOf c s p) ms) = .throw e)) :=
+  ⟨itWalk_inv hc hs rev ms (itOf_inv s p), itDeref_safe hs (itWalk_inv hc hs rev ms (itOf_inv s p))⟩
 
 /-- the three default-constructed objects are well-formed, so histories may start there -/
 theorem C10_init (c cu : Cfg) : WFW c cu (World.init c cu) :=
@@ -85,5 +110,17 @@ example : HistOK ⟨3, 2 ^ 64, 256⟩ ⟨9, 2 ^ 64, 256⟩ (World.init ⟨3, 2 ^
   · refine ⟨trivial, ?_, ?_⟩ <;> intro q h2
     · exact ⟨trivial, fun _ _ => trivial, fun _ _ => trivial⟩
     · exact ⟨trivial, fun _ _ => trivial, fun _ _ => trivial⟩
+
+/-- iterator walks: `--end()` stays at `end()` and the dereference throws; `it( 1) += SIZE_MAX` wraps to index 0 -/
+example : step ⟨8, 2 ^ 64, 256⟩ ⟨9, 2 ^ 64, 256⟩ ⟨⟨[97, 98, 99, 0, 0, 0, 0, 0, 0], 3⟩, fresh ⟨8, 2 ^ 64, 256⟩, fresh ⟨9, 2 ^ 64, 256⟩⟩
+    (.itWalkDeref false .fin [.dec]) = .throw .range_error := by rfl
+example : itWalk ⟨8, 2 ^ 64, 256⟩ ⟨[97, 98, 99, 0, 0, 0, 0, 0, 0], 3⟩ false 1 [.add (2 ^ 64 - 1)] = 0 := by decide
+/-- the pinned code: `--` stepped from `EndValue` to `EndValue - 1`, and `operator *` read `mString[ SIZE_MAX - 1]` -/
+example : itDeref ⟨8, 2 ^ 64, 256⟩ ⟨[97, 98, 99, 0, 0, 0, 0, 0, 0], 3⟩ (itEnd ⟨8, 2 ^ 64, 256⟩ - 1) = .oob "load" := by rfl
+/-- the caller contract of `it[ k]` is satisfiable: `begin()[ 2]` -/
+example : ArgsOK ⟨8, 2 ^ 64, 256⟩ ⟨⟨[97, 98, 99, 0, 0, 0, 0, 0, 0], 3⟩, fresh ⟨8, 2 ^ 64, 256⟩, fresh ⟨9, 2 ^ 64, 256⟩⟩
+    (.itWalkIdx false (.pos 0) [] 2) := by
+  show addW _ (itWalk _ _ false (itOf _ _ (.pos 0)) []) 2 ≤ 8
+  decide
 
 end CelmaVerif.Props.C10
